@@ -153,7 +153,7 @@ func DialRawWS(w *World, h *History, idx int, url string, tlsCfg *tls.Config) (*
 			prev(lk)
 		}
 	}
-	d := websocket.Dialer{NetDialContext: simnet.DialContext, Subprotocols: []string{"lime"}, TLSClientConfig: tlsCfg}
+	d := websocket.Dialer{NetDialContext: simnet.DialContext, Subprotocols: []string{"lime"}, EnableCompression: swarm.WSCompress, TLSClientConfig: tlsCfg}
 	ctx, cancel := context.WithTimeout(context.Background(), time.Minute)
 	defer cancel()
 	ws, _, err := d.DialContext(ctx, url, http.Header{})
